@@ -63,6 +63,18 @@ def _prune(keep):
                 pass
 
 
+def _prune_scratch(d, age=12 * 3600):
+    """Scratch directories of runs that died without cleaning up."""
+    now = time.time()
+    try:
+        for n in os.listdir(d):
+            p = os.path.join(d, n)
+            if os.path.isdir(p) and now - os.path.getmtime(p) > age:
+                shutil.rmtree(p, ignore_errors=True)
+    except OSError:
+        pass
+
+
 def ensure(verbose=False, repo=REPO):
     """Synchronise sources, build extensions if needed; return env dict."""
     os.makedirs(ROOT, exist_ok=True)
@@ -135,6 +147,7 @@ def ensure(verbose=False, repo=REPO):
     env['VERIF_SRC'] = src
     env['VERIF_SCRATCH'] = os.path.join(base, 'scratch')
     os.makedirs(env['VERIF_SCRATCH'], exist_ok=True)
+    _prune_scratch(env['VERIF_SCRATCH'])
     return env
 
 
